@@ -273,6 +273,8 @@ PROPS["C10"] = dict(
         dict(pkg=CT, run="^VerifC10_Ops1$", tiers=["quick", "thorough"], replay="model", preempt=1, timeout=1500, reach=["final-ping", "exec-fails-after-sync", "start-fails-early", "sync-refused", "lookup-fails", "program-runs"]),
         dict(pkg=CT, run="^VerifC10_Ops1Cancel$", tiers=["quick", "thorough"], replay="model", preempt=1, timeout=1500, reach=["cancelled-run", "program-verdict"]),
         dict(pkg=CT, run="^VerifC10_Ops1Break$", tiers=["quick", "thorough"], replay="model", preempt=1, timeout=3000, reach=["transport-lost", "ping-after-loss"]),
+        # the container init is killed at an arbitrary transport event around a call: end-of-file on the host side
+        dict(pkg=CT, run="^VerifC10_InitDies$", replay="model", preempt=1, timeout=1500, reach=["init-killed", "call-returned", "call-failed"]),
         dict(pkg=CT, run="^VerifC10_Ops2$", tiers=["thorough"], replay="model", preempt=1, timeout=30000, max_paths=50000000),
     ],
 )
@@ -387,6 +389,7 @@ PROPS["C17"] = dict(
         dict(pkg=CT, run="^VerifC17_ThreeCallers$", tiers=["thorough"], replay="model", preempt=2, timeout=20000, max_paths=20000000),
         # Ping racing a running program in the same environment (Ping's socket deadline may expire while it is armed and the program still runs)
         dict(pkg=CT, run="^VerifC17_PingDuringExecve$", replay="model", preempt=1, timeout=1500, reach=["both-returned", "program-ran"]),
+        dict(pkg=CT, run="^VerifC17_OpDuringExecve$", replay="model", preempt=1, timeout=1500, reach=["both-returned", "program-ran"]),
         dict(pkg=PT, run="^VerifC03_Trace_Quick$", replay="model", timeout=900),
         # the launcher's fork excludes goroutines that create descriptors under ForkLock.RLock (no inherited foreign descriptor)
         dict(pkg=FE, run="^VerifC17_ForkVsDescriptorCreator$", replay="model", preempt=2, timeout=900, reach=["execed", "creator-ran"]),
